@@ -75,6 +75,7 @@ static const char* lifo_scripts[][3] = {
 // ---- dist fifo ----
 static dist_fifo_node_t dnodes[12];
 static int d_free[12], d_nfree;  // nodes handed back by poppers (ghost handoff)
+extern void fmc_fence(void);
 GHOST static void d_give(int idx) { d_free[d_nfree++] = idx; }
 GHOST static int d_take(void) { return d_nfree ? d_free[--d_nfree] : -1; }
 static int d_nextid = 1;
@@ -91,7 +92,7 @@ static void dist_pop(void) {
   if (n == DIST_FIFO_RETRY) r = R_RETRY;
   else if (n != DIST_FIFO_EMPTY) {
     r = (intptr_t)n->data;
-    if (n >= dnodes && n < dnodes + 12) d_give((int)(n - dnodes));
+    if (n >= dnodes && n < dnodes + 12) { fmc_fence(); d_give((int)(n - dnodes)); }  // a real hand-over drains the store buffer first (see h_queues.c)
   }
   fmc_op_end(op, r);
 }
